@@ -475,7 +475,7 @@ func checkC13Stress(t *testing.T, c C13Stress) Verdict {
 }
 
 func genC13Stress(rt *rapid.T) C13Stress {
-	return C13Stress{Keys: rapid.SampledFrom([]int{8, 16, 33, 64}).Draw(rt, "keys"), Writers: rapid.IntRange(1, 3).Draw(rt, "w"),
+	return C13Stress{Keys: rapid.SampledFrom([]int{8, 16, 33, 64, 300, 1000}).Draw(rt, "keys"), Writers: rapid.IntRange(1, 3).Draw(rt, "w"),
 		Readers: rapid.IntRange(1, 6).Draw(rt, "r"), Rounds: rapid.IntRange(50, 400).Draw(rt, "rounds")}
 }
 
